@@ -37,8 +37,8 @@ PROPERTY = "C20"
 LEVEL = "exploration"
 RULE = (
     "id family: case = (id string built from a grammar of atoms, optional second id, server mode in "
-    "{multi, single, default}); each case sends the id in 6-9 placements (config_id, config_ids alone/first/second/"
-    "pair, warm cache); non-trivial = the id contains a path separator, a dot sequence, a %-encoding, a unicode "
+    "{multi, single, default}); each case sends the id in 7-11 placements (config_id, config_ids alone/first/second/"
+    "pair, and again after legitimate requests warmed the config cache); non-trivial = the id contains a path separator, a dot sequence, a %-encoding, a unicode "
     "look-alike, a control character, an absolute prefix or a yaml suffix; distinct = (atoms, second id, mode). "
     "thread family: case = sequence of <=12 requests over <=3 thread ids with/without context, stream flag, "
     "reply shape, failing generations, hostile config ids; non-trivial = >=2 valid threads whose requests interleave "
@@ -877,7 +877,7 @@ def _run_thread_case(case):
         ids = _effective_ids(req["cfg"])
         prob = _check_paths(out, ids, obs)
         if prob:
-            return viol(prob["kind"], i, req, **prob)
+            return viol(prob["kind"], i, req, **{k: v for k, v in prob.items() if k != "kind"})
         expected_store = {"thread-" + t: m for t, m in model.items()}
         trace.append({"i": i, "thread": _short(tid, 24) if tid is not None else None, "cfg": ids, "got": kind,
                       "seen_by_generation": len(out["gen"][0]["messages"]) if out["gen"] else None,
@@ -983,7 +983,7 @@ def classify(r):
 
 def finalize(tier, seed, observed, counts):
     need = ["paths_in_root", "fixed_replies", "success_replies", "noid_errors", "validation_422", "thread_store_checks",
-            "served_from_cache", "interleaved_sequences", "failed_generations", "real_rails_turns"]
+            "served_from_cache", "interleaved_sequences", "failed_generations"]
     missing = [k for k in need if not observed.get(k)]
     out = {"coverage": {"reach_counters_required": need}}
     if missing:
